@@ -37,9 +37,14 @@ def gen_script(ch, deep=False):
     ops.append(('accept', None, None))
     n = 1 + ch.draw(15 if deep else 9, 'n_ops')
     sent = 0
+    rbg = False
     for _ in range(n):
-        k = ch.weighted([5, 3, 3, 2, 1, 1, 2, 1], 'op')
-        if k == 7:
+        k = ch.weighted([5, 3, 3, 2, 1, 1, 2, 1, 1] if not rbg else [0, 3, 3, 0, 2, 1, 2, 1, 0], 'op')
+        if k == 8:
+            # from here on a second task of the application does the receiving
+            ops.append(('recv_bg', ch.draw(4, 'k')))
+            rbg = True
+        elif k == 7:
             # looking at ws.ready / ws.closed / ws.unaccepted is an application step like any other
             # (and must not change what the next receive returns)
             ops.append(('props',))
@@ -118,7 +123,8 @@ class H(WsHarness):
         root = getattr(cur, 'sim_root', cur)
         return [t for t in asyncio.all_tasks(self.loop)
                 if t is not cur and not t.done() and getattr(t, 'sim_root', None) is root
-                and t is not getattr(self, 'bg_task', None)]
+                and t is not getattr(self, 'bg_task', None)
+                and t not in getattr(self, 'rbg_tasks', ())]      # the script's own receiver task
 
     def close_check(self):
         if self.conn.in_receive:
@@ -226,6 +232,7 @@ ALLOWED_EXC = {
     'close': (),
     'pause': (),
     'send_bg': (),
+    'recv_bg': (),
     'join': (),
     'return': (),
 }
@@ -239,7 +246,10 @@ def check_op_errors(ctx, h):
         if o.kind == 'exc' and o.exc not in ALLOWED_EXC.get(o.op[0], ()):
             if h.conn.send_failed and o.op[0] == 'close' and o.exc == 'WebSocketDisconnected':
                 continue   # the close event itself could not be sent: connection lost
-            ctx.violate('ws.op_error', '%s raised %s: %s' % (o.op[0], o.exc, o.extra), op=o.op[0])
+            ctx.violate('ws.op_error', '%s raised %s: %s%s' % (
+                o.op[0], o.exc, o.extra, ' (in a second task while close() was in progress in the first)'
+                if getattr(o, 'while_closing', False) else ''),
+                op=o.op[0], exc=o.exc, while_closing=bool(getattr(o, 'while_closing', False)))
             return
     for e in h.loop.errors:
         ctx.violate('ws.task_error', 'background task failed: %s' % e)
@@ -275,6 +285,10 @@ def run(ctx):
     deep = ctx.tier == 'thorough'      # deeper bounds in the thorough tier
     client = gen_client(ch, max_msgs=10 if deep else 6)
     script = gen_script(ch, deep)
+    if cfg['max_queue'] == 0:
+        # unbuffered mode: the application's receive *is* the server's receive; a second task
+        # receiving while the first one closes is outside what this check models
+        script = [('pause', 1) if op[0] == 'recv_bg' else op for op in script]
     faulty = ch.draw(10, 'faulty') >= 8
     if faulty:
         cfg['fail_send_at'] = [ch.draw(6, 'fail_at')]
